@@ -240,7 +240,7 @@ let clause_name = function
   | 7 -> "full-vs-sparse-view" | 8 -> "hash-mismatch" | 9 -> "node-count-mismatch"
   | 10 -> "incoming-count-not-exact" | 11 -> "unreferenced-node-not-reclaimed"
   | 12 -> "cache-count-mismatch" | 13 -> "edge-values-not-normalised"
-  | 14 -> "full-view-size" | 15 -> "singleton-flag" | n -> "clause" ^ string_of_int n
+  | 14 -> "full-view-size" | 15 -> "singleton-flag" | 16 -> "level-size" | 17 -> "node-at-level-0" | 18 -> "quasi-root-below-top" | 19 -> "root-not-live" | n -> "clause" ^ string_of_int n
 
 let ev_int s = try int_of_string s with _ -> 0
 
@@ -301,7 +301,9 @@ let parse_audit (obs : string) =
            d_rule = (match get "rule" with "fr" -> FR | "qr" -> QR | _ -> IR);
            d_lab = (match get "lab" with "mt" -> LMT | "evp" -> LEVP | _ -> LEVT);
            d_del = (match get "del" with "pess" -> DPess | "opt" -> DOpt | _ -> DNever);
-           d_zombies = !zombies }
+           d_zombies = !zombies;
+           d_lsz = (let l = get "lsz" in if l = "" then []
+                    else List.map (fun s -> z_of_int (int_of_string s)) (Stdlib.String.split_on_char ',' l)) }
 
 (* ---- C16: documented precondition checks of apply (domain, set/relation) ---- *)
 let forest_of_edge name = Hashtbl.find_opt edge_forest_name name
@@ -718,6 +720,11 @@ let rec run toks =
         | None -> emit "audit UNPARSABLE"
         | Some d ->
           let bad = audit d in
+          (* instances of the hypotheses of AuditP.audited_store_canonical (not an observation) *)
+          (match d.d_lab with
+           | LMT -> print_endline (Printf.sprintf "#thm audited_store_canonical dom_ok=%b audit_empty=%b"
+                                     (dom_ok d) (bad = []))
+           | _ -> ());
           (* after a deliberately raised error, references held by the abandoned
              computation are leaked (C++ unwinding is not modelled): in scripts that
              say so, the two count clauses are reported but not enforced *)
